@@ -105,3 +105,13 @@ Theorem C16_correspondence_evaluates_the_same_colouring : forall s : space,
   l2g_tab (freeze s) = l2g_tab s /\ mult_tab (freeze s) = mult_tab s /\ supp_tab (freeze s) = supp_tab s.
 Proof. exact (fun s => conj (freeze_colour_map s) (freeze_tables s)). Qed.
 Print Assumptions C16_correspondence_evaluates_the_same_colouring.
+(* barycentric (P0/P1/RWG/SNC), DUAL0/DUAL1, BC/RBC, localised and DP spaces are all built as
+   local2global[support] = arange(k * size).reshape(size, k), multipliers 1: alias closed for every n, k, support
+   (the correspondence checks inside Coq that the arrays of those spaces ARE arange_space n k support), and
+   different elements never share a dof *)
+Theorem C16_alias_closed_arange : forall n k sup,
+  alias_closed (arange_space n k sup) /\
+  (forall e f i j, sup e = true -> sup f = true -> i < k -> j < k ->
+     l2g (arange_space n k sup) e i = l2g (arange_space n k sup) f j -> e = f /\ i = j).
+Proof. exact (fun n k sup => conj (arange_alias_closed n k sup) (arange_rows_disjoint n k sup)). Qed.
+Print Assumptions C16_alias_closed_arange.
